@@ -33,7 +33,7 @@ CLAIMED = {
              "the balance drops by exactly the amount, otherwise nothing changes (banks with 0 or 1 token); record_transferred_in credits exactly old + amount or fails without "
              "change exactly on u64 overflow (empty bank with any new token; 1-token bank credited again); confirm_unchecked succeeds exactly once and records the confirmed "
              "total; record_claimed(g) succeeds exactly when g <= remaining and then remaining drops by g (so claims never exceed the confirmed GT; banks with 0 or 2 tokens, "
-             "balances untouched). (3) reserve_balances(n, d) on banks with 1 and 2 tokens, balances, n and d below 2^8 (2^16 in the thorough tier): refused without change "
+             "balances untouched). (3) reserve_balances(n, d) on banks with 1 and 2 tokens, balances, n and d below 2^8 (the 2^16 variants do not finish and are kept as tier=experimental): refused without change "
              "exactly when n > d or when d = 0 with a non-zero balance; otherwise every balance becomes exactly floor(balance * n / d) <= balance.",
         note="Trusted: kani-compiler + CBMC/CaDiCaL; GtBank/Config field offsets restated in the harness and checked against the real accessors (c37_bank_layout_matches_accessors). " + _STUBS +
              "In (3) <u128 as MulDiv>::checked_mul_div (ruint U256; its division by a symbolic divisor does not finish under symbolic execution) is replaced by its specification "
@@ -47,8 +47,8 @@ CLAIMED = {
         design="C37"),
     "C38": dict(
         text=BOUNDED + "partial. (1) compute_time_weighted_apy equals floor(S / T), S = exact sum over the elapsed seconds of the weekly bucket of that second (weeks past the last bucket "
-             "use the last one; overflow-checked reference, stated as q*T <= S < (q+1)*T), for ALL 53 gradients symbolic at once - each in [0, 255] in the quick tier, [0, 65535] in the "
-             "thorough tier - at the FIXED elapsed times 1 s, 1 week, 1 week + 1 s, 52 weeks + 5 s, 53 weeks + 1 s, 60 weeks + 777 s (stake start 0), and 3 days with every stake "
+             "use the last one; overflow-checked reference, stated as q*T <= S < (q+1)*T), for ALL 53 gradients symbolic at once - each in [0, 255] in the quick tier, and in [0, 65535] in the "
+             "thorough tier at the four longest durations - at the FIXED elapsed times 1 s, 1 week, 1 week + 1 s, 52 weeks + 5 s, 53 weeks + 1 s, 60 weeks + 777 s (stake start 0), and 3 days with every stake "
              "start in [0, i64::MAX - T]; the durations are chosen so that every branch and boundary of the function is exercised (no complete week, remainder in a regular bucket, "
              "all regular buckets complete, one and several complete weeks past the table, remainder past the table). The elapsed time is NOT symbolic: with a symbolic duration the "
              "final u128 division does not finish even for 8-bit gradients (harness kept as tier=experimental), and full-width gradients (<= 200e18) do not finish either. "
